@@ -55,7 +55,8 @@ class ObjOps(ToolOps):
         gid = len(gens)
         gens[gid] = {"at": None, "locals": dict(bound), "done": False}
         env["@gens"] = gens
-        self.gen_units[gid] = unit
+        # (what the generator does, private helpers and clean-up context managers of the library unfolded)
+        self.gen_units[gid] = self.ctx.inlined(unit) if unit.parent is None else unit
         return ("GEN", gid)
 
     def _bind_call(self, unit, call, env, ev, self_value=None) -> Optional[Dict[str, Any]]:
@@ -252,6 +253,17 @@ class ObjOps(ToolOps):
                 env["@heap"] = heap
                 return
         super().store(target, value, env, ev)
+
+    def augstore(self, node, env, ev):
+        st = node.ast
+        if isinstance(st, ast.AugAssign) and isinstance(st.target, ast.Attribute):
+            # ``self._count -= 1``: read the field, combine, write it back
+            base = ev.eval(st.target.value, env)
+            if self._is_obj(base):
+                cur = ev.eval(ast.copy_location(ast.Attribute(value=st.target.value, attr=st.target.attr, ctx=ast.Load()), st.target), env)
+                self.store(st.target, self.binop(type(st.op).__name__, cur, ev.eval(st.value, env), env), env, ev)
+                return
+        super().augstore(node, env, ev)
 
     def name(self, ident, env):
         if ident in EXC_NAMES:
@@ -863,9 +875,10 @@ def _enough_decided(ctx, rid: str, what: str, undecided: int, total: int) -> Non
     """A history step the model cannot evaluate is never a violation - but a rule that cannot evaluate a good part of its
     histories decides too little to be believed: that is an analysis error (exit 2), not a silent pass.  (Across the 212
     refactorings of the neutral corpus at most 3 of about 2000 steps were undecided.)"""
-    if undecided > max(10, total // 50):
-        raise AnalysisError(f"{rid}: {undecided} of {total} {what} history steps are not evaluable over the object model: "
-                            "the histories decide too little (the model does not follow the code any more)")
+    # (a floor: consulted only when the run found no violation - a violating tree is reported, not "not analysable")
+    pct = 100 if not total else (100 * (total - undecided)) // total
+    ctx.count(f"{rid}: {what} history steps decided (%)", pct)
+    ctx.floor(f"{rid}: {what} history steps decided (%)", 98 if total >= 500 else 0)
 
 
 def _released(ops, state, k: int, n_items: int) -> bool:
